@@ -70,6 +70,8 @@ func call(o op) int {
 		return lib.NonBlocking(o.arg)
 	case 11:
 		return lib.Quit(o.arg)
+	case 12:
+		return lib.WorkerPool(o.arg)
 	// defective
 	case 20:
 		return lib.RacyCounter()
@@ -111,6 +113,8 @@ func want(fn, arg int) int {
 		return arg
 	case 11:
 		return arg * (arg + 1) / 2
+	case 12:
+		return sumSq(arg)
 	case 26:
 		return 1
 	case 20:
@@ -171,7 +175,7 @@ func main() {
 			for j := 0; j < k; j++ {
 				var o op
 				if mode == "ok" {
-					o.fn = r.n(12)
+					o.fn = r.n(13)
 					o.arg = 1 + r.n(7)
 				} else {
 					o.fn = *name
